@@ -255,7 +255,7 @@ def task_eq(ka, kb, meta_b, read_b=False):
 def main():
     chk = Check("C19", __doc__)
     depth = 2 if chk.tier == "quick" else 3
-    chk.bounds = {"parsed entries": "the same operations on a field-less entry parsed by the splitter next to a second one (which must stay field-less, as must an entry parsed afterwards)", "mapping": f"pre-state of 0..3 fields with distinct 1-char keys over {KS!r}; every sequence of 1..{depth} operations from {OPS} with symbolic key arguments",
+    chk.bounds = {"parsed entries": "the same operations on a field-less entry parsed by the splitter next to a second one (which must stay field-less, as must an entry parsed afterwards)", "mapping": f"pre-state of 0..3 fields with distinct 1-char keys over {KS!r}; every sequence of 1..{depth} operations (length 3: pre-states of 0..2 fields) from {OPS} with symbolic key arguments",
                   "equality": "all ordered pairs of kinds from Field/String/Preamble/ExplicitComment/ImplicitComment/Entry(1 field)/Entry(2 fields); every string attribute a symbolic char over {x,y}; start lines symbolic 0..1; with and without extra metadata on one or on both operands; with and without read-only use of one operand (start_line, raw, parser_metadata, get_parser_metadata, fields_dict, get, in, items) before the comparison"}
     chk.assumptions = ["field keys are distinct and not ENTRYTYPE/ID (statement)", "deleting an absent key is excluded (the statement does not fix whether a silent no-op is a 'result')",
                        "longer keys / deeper histories are outside the claim; the oracle dictionary is the engine's model of dict (keys compared by symbolic string equality, insertion order kept)"]
@@ -263,7 +263,7 @@ def main():
     for n0 in (3, 2, 1, 0):
         for d in range(depth, 0, -1):
             for opnames in itertools.product(OPS, repeat=d):
-                if d == 3 and n0 not in (2,):
+                if d == 3 and n0 not in (2, 1, 0):
                     continue
                 chk.add_task(f"map-n{n0}-" + "-".join(opnames), task_map, n0=n0, opnames=opnames)
     # entries that come out of the splitter (field-less '@article{ek}' beside '@book{other}'): other entries are not touched
